@@ -27,6 +27,25 @@ Theorem C16_keys_selected : forall st names k v,
 Proof. exact collect_selected_spec. Qed.
 Print Assumptions C16_keys_selected.
 
+(* on_missing: a selected name is reported missing iff it is not in the state at all ... *)
+Theorem C16_missing_names : forall st names k,
+  In k (snd (collect_selected st names)) <-> In k names /\ vals st !! k = None.
+Proof. exact collect_selected_missing. Qed.
+Print Assumptions C16_missing_names.
+
+(* ... and the policy decides: nothing missing or 'ignore' -> the values, quietly; 'warn' -> the values plus a warning naming
+   exactly the missing names; 'error' -> an error naming them, and no values. *)
+Theorem C16_on_missing : forall pol st names,
+  let missing := snd (collect_selected st names) in
+  let values := dupdate [] (fst (collect_selected st names)) in
+  match select_outputs pol st names with
+  | SelOk v => v = values /\ (missing = [] \/ pol = MIgnore)
+  | SelWarn v m => v = values /\ m = missing /\ missing <> [] /\ pol = MWarn
+  | SelError m => m = missing /\ missing <> [] /\ pol = MError
+  end.
+Proof. exact select_outputs_spec. Qed.
+Print Assumptions C16_on_missing.
+
 Example C16_nonvacuous :
   let r := run_basic loop_ft loop_gt Sync 20 loop [(1%positive, VInt 0)] None in
   res_values r = [(1%positive, VInt 3)]     (* the emitted signal 20 is not returned *).
